@@ -69,6 +69,8 @@ def tree_of(v):
         return ['Z', [tree_of(x) for x in v]]
     if isinstance(v, collections.deque):
         return ['Q', [tree_of(x) for x in v]]
+    if isinstance(v, collections.OrderedDict):
+        return ['D', 'OrderedDict', [[tree_of(k), tree_of(x)] for k, x in v.items()]]
     if isinstance(v, collections.defaultdict):
         return ['D', getattr(v.default_factory, '__name__', repr(v.default_factory)),
                 [[tree_of(k), tree_of(x)] for k, x in v.items()]]
@@ -77,7 +79,8 @@ def tree_of(v):
     return ['X', type(v).__name__, repr(v)[:100]]
 
 
-FACTORIES = {'str': str, 'int': int, 'float': float, 'bool': bool, 'list': list, 'set': set, 'dict': dict}
+FACTORIES = {'str': str, 'int': int, 'float': float, 'bool': bool, 'list': list, 'set': set, 'dict': dict,
+             'OrderedDict': collections.OrderedDict}
 
 
 def build(t, mod):
@@ -128,6 +131,8 @@ def build(t, mod):
         return collections.deque(build(x, mod) for x in t[1])
     if tag == 'D':
         items = [(build(k, mod), build(x, mod)) for k, x in t[2]]
+        if t[1] == 'OrderedDict':
+            return collections.OrderedDict(items)
         return dict(items) if t[1] is None else collections.defaultdict(FACTORIES[t[1]], items)
     if tag == 'M':
         return getattr(mod, t[1])(*[build(x, mod) for x in t[2]])
@@ -223,6 +228,9 @@ def field_keys(model):
         d = out[c['name']] = {}
         for f in c['fields']:
             n = f['name']
+            if f.get('path') or f.get('alias'):
+                d[n] = {'load': list(f.get('alias') or [f['path'].split('.')[0]]), 'dump': (f.get('alias') or [f['path'].split('.')[0]])[0]}
+                continue
             if kc is None:
                 load = [n]
             elif kc == 'AUTO':
@@ -233,11 +241,21 @@ def field_keys(model):
     return out
 
 
+def alone_load(ncls, hist, mod):
+    """fromdict(<nested class>, <as-is document>) on its own"""
+    from dataclass_wizard import fromdict
+    try:
+        y = fromdict(ncls, build(hist['doc'], mod))
+        return {'step': 'nested class alone', 'ok': G.norm(tree_of(y)) == G.norm(hist['instance'])}
+    except BaseException as e:  # noqa
+        return {'step': 'nested class alone', 'ok': False, 'err': err_outcome(e)}
+
+
 def do_model(model):
     from dataclass_wizard import fromdict, asdict, LoadMeta, DumpMeta
     from dataclass_wizard.utils import function_builder as fb
     from dataclass_wizard.loader_selection import _get_load_fn_for_dataclass
-    res = {'gen_err': None, 'fns': {}, 'inst': [], 'docs': [], 'oracle': [], 'setup_err': None}
+    res = {'gen_err': None, 'fns': {}, 'inst': [], 'docs': [], 'oracle': [], 'setup_err': None, 'history': []}
     try:
         mod = new_module(G.model_source(model))
         root = getattr(mod, model['classes'][model.get('root', 0)]['name'])
@@ -245,6 +263,16 @@ def do_model(model):
         if model.get('key_case'):
             kw['v1_key_case'] = model['key_case']
         kw.update(model.get('load_meta') or {})
+        # Meta set on a nested class ONLY (e.g. v1_on_unknown_key='RAISE')
+        for c in model['classes']:
+            if c.get('meta'):
+                LoadMeta(v1=True, **c['meta']).bind_to(getattr(mod, c['name']))
+        # history A: a nested class is loaded on its own FIRST (v1, keys as-is), then used under the root
+        hist = model.get('history')
+        if hist and hist['kind'] == 'A':
+            ncls = getattr(mod, model['classes'][hist['cls']]['name'])
+            LoadMeta(v1=True).bind_to(ncls)
+            res['history'] = [alone_load(ncls, hist, mod)]
         LoadMeta(**kw).bind_to(root)
         DumpMeta(key_transform=model.get('dump') or 'NONE').bind_to(root)
         res['keys'] = field_keys(model)
@@ -308,6 +336,20 @@ def do_model(model):
                 r['json'] = {'dumps_err': type(e).__name__}
         G.walk_class(model.get('root', 0), r['doc'], model, pairs)
         res['inst'].append(r)
+    # history: the nested class on its own AFTER the root was used, then the root again
+    hist = model.get('history')
+    if hist:
+        ncls = getattr(mod, model['classes'][hist['cls']]['name'])
+        if hist['kind'] == 'B':      # the nested class opts into v1 on its own only now
+            LoadMeta(v1=True).bind_to(ncls)
+        res['history'].append(alone_load(ncls, hist, mod))
+        for tree in model.get('instances', [])[:1]:
+            try:
+                x = build(tree, mod)
+                y = fromdict(root, asdict(x))
+                res['history'].append({'step': 'root again', 'ok': bool(y == x) and G.norm(tree_of(y)) == G.norm(tree_of(x))})
+            except BaseException as e:  # noqa
+                res['history'].append({'step': 'root again', 'ok': False, 'err': err_outcome(e)})
     # ---- extra documents (malformed stream)
     for tree in model.get('docs', []):
         try:
